@@ -74,6 +74,9 @@ def check_C01(tier, seed):
         # (a stream) and cfg_parse (a file) must give the same result
         parsecheck.replay(v, exe, res, aspects={"tree", "diag"}, seed=seed,
                           renderings=("canonical", "varied", "fp", "file") if c == "C01_quick.cfg" else ("canonical", "varied"), tag="C01")
+    # the same under the ignore-unknown context flag (undeclared items, nested, at every level)
+    res = tlc_parse(v, "ignore_quick.cfg", INV_IGNORE)
+    parsecheck.replay(v, exe, res, aspects={"tree", "diag"}, seed=seed, renderings=("canonical",), tag="C01ign")
     # leg B: recorded executions on random schemas with long random texts, validated against the specification
     from . import tracegen
     tracegen.run(v, exe, 120 if tier == "quick" else 2500, seed, tag="C01trace", texts_per=4, calls_per=3)
